@@ -10,6 +10,11 @@
    (16 9 rows cols probes)                    checked element access directly on a Matrix (all forms)
    (16 10 rows cols n)                        RecordMatrix::from_iter / from_iters over n constant records
    (16 11 shape n)                            RecordTensor::from_iter over n constant records
+   (16 14 term probes)                        views over ZERO-SIZED-element leaves (lengths up to
+                                              usize::MAX): subset of the term language (leaf, range /
+                                              mask from_all(_strict), reverse, stack, chain; harness
+                                              harness/src/c16/zst.rs); result as op 12 with (1) for
+                                              every present probe; never a value, never an iteration
    (16 12 term probes)                        EVERY view adaptor / composition as the receiver of the
                                               checked getters: `term` is the view-term language of C02
                                               (Run/RunC02.v: (0 id shape) leaf, (1|2 t params) range /
@@ -112,6 +117,30 @@ Definition adaptor_case (v : view) (probes : list (list N)) : sx :=
       if forallb (fun p => Nat.eqb (length p) (length (c_shape c))) probes
       then SL [SZ 0; SL [sshape (c_shape c);
                          slist (fun p => SL [SZ 0; sopt (fun e => SZ (leaf_value e)) (c_get c p)]) probes]]
+      else bad_case
+  | Err e => SL [SZ 1; e]
+  | Panic => SL [SZ 2]
+  end.
+
+(* op 14: views over leaves with a ZERO-SIZED element type (dimension lengths up to usize::MAX are
+   constructible in O(1) memory): constructor outcome, shape and PRESENCE only.  A leaf whose
+   element count does not fit usize cannot be built (the Vec's length is a usize): bad case. *)
+Fixpoint vterm_leaf_shapes (v : view) : list shape :=
+  match v with
+  | VTensor _ sh => [sh]
+  | VMatrix _ _ _ _ _ => []
+  | VRange v _ | VMask v _ | VIndex v _ | VExpand v _ | VRename v _ | VReverse v _
+  | VAccess v _ | VTranspose v _ | VWrap v => vterm_leaf_shapes v
+  | VStack vs _ _ | VChain vs _ => flat_map vterm_leaf_shapes vs
+  end.
+Definition zst_case (v : view) (probes : list (list N)) : sx :=
+  if negb (forallb (fun sh => match checked_elements sh with Some _ => true | None => false end)
+                   (vterm_leaf_shapes v)) then bad_case else
+  match v_ctor v with
+  | Ok c =>
+      if forallb (fun p => Nat.eqb (length p) (length (c_shape c))) probes
+      then SL [SZ 0; SL [sshape (c_shape c);
+                         slist (fun p => SL [SZ 0; sopt (fun _ => SZ 1) (c_get c p)]) probes]]
       else bad_case
   | Err e => SL [SZ 1; e]
   | Panic => SL [SZ 2]
@@ -220,6 +249,11 @@ Definition run_c16 (args : list sx) : sx :=
   | [SZ 12%Z; t; probes] =>
       match dvterm 40 t, dlist didx probes with
       | Some v, Some probes => if nodup_N (vterm_leaf_ids v) then adaptor_case v probes else bad_case
+      | _, _ => bad_case
+      end
+  | [SZ 14%Z; t; probes] =>
+      match dvterm 40 t, dlist didx probes with
+      | Some v, Some probes => zst_case v probes
       | _, _ => bad_case
       end
   | [SZ 13%Z; kind; sh; streams] =>
